@@ -199,6 +199,38 @@ theorem far_cross_track (tol : ℝ) (q : OnLineQ ℝ) (h1 : tol < q.d01) (h2 : t
   unfold onLineDecide
   simp [not_le.mpr h1, not_le.mpr h2, not_le.mpr h3]
 
+/-- where the small-angle product `sinHav d01 · bearing` exceeds 1 — a position more than a sixth of
+    a turn from the line's first end and abeam of it — the cross track has no haversine; in the real
+    model the square root of the negative number is 0 and the term comes out above one half … -/
+theorem havSin_beyond_one (s : ℝ) (hs : 1 < |s|) : 1 / 2 < havSin s := by
+  have hs2 : 1 < s * s := by
+    have : 1 < |s| * |s| := by nlinarith [abs_nonneg s]
+    rwa [abs_mul_abs_self] at this
+  have hneg : 1 - s * s ≤ 0 := by linarith
+  have hsq : Real.sqrt (1 - s * s) = 0 := Real.sqrt_eq_zero_of_nonpos hneg
+  show (s * s) / ((1 : ℕ) + Real.sqrt (((1 : ℕ) : ℝ) - s * s)) * (((5 : ℕ) : ℝ) / 10 ^ 1) > 1 / 2
+  simp only [Nat.cast_one, hsq, add_zero, div_one]
+  norm_num
+  linarith
+
+/-- … so such a position, outside both end caps, is never on the line for any tolerance up to a
+    quarter of the circumference. (The float64 code computes NaN there; since 3f5c8ca it answers
+    "not on the line" as well — before, NaN slipped through every comparison and the answer was
+    "on the line".) -/
+theorem far_abeam_is_miss (tol r lat0 lon0 lat1 lon1 lat2 lon2 : ℝ)
+    (hs : 1 < |sinHav (distanceHav (lat0 * radians) (lon0 * radians) (lat1 * radians) (lon1 * radians)) *
+      sinDeltaBearing (lat1 * radians) (lon1 * radians) (lat2 * radians) (lon2 * radians) (lat0 * radians) (lon0 * radians)|)
+    (htol : hav (tol / r) ≤ 1 / 2)
+    (h1 : hav (tol / r) < distanceHav (lat0 * radians) (lon0 * radians) (lat1 * radians) (lon1 * radians))
+    (h2 : hav (tol / r) < distanceHav (lat0 * radians) (lon0 * radians) (lat2 * radians) (lon2 * radians)) :
+    onLine tol r lat0 lon0 lat1 lon1 lat2 lon2 = false := by
+  unfold onLine
+  apply far_cross_track
+  · exact h1
+  · exact h2
+  · show hav (tol / r) < havSin _
+    exact lt_of_le_of_lt htol (havSin_beyond_one _ hs)
+
 /-- `havSin x = hav (arcsin x)` for |x| ≤ 1 (the helper's documentation, exactly) -/
 theorem havSin_eq (x : ℝ) (hx : |x| ≤ 1) : havSin x = hav (Real.arcsin x) := by
   have hx1 : -1 ≤ x := by linarith [neg_abs_le x]
